@@ -369,6 +369,10 @@ class StmtMixin:
             if spec is not None:
                 yield from self.loop_with_spec(s1, s, it, spec)
                 continue
+            if isinstance(it, Ref) and s1.obj(it).kind == "list" and not (s1.obj(it).extra and s1.obj(it).extra.get("symbolic")):
+                # a list iterator indexes the LIVE list: elements removed or added by the body shift what comes next
+                yield from self.unroll_live(s, s1, it, 0)
+                continue
             items = self.iter_items(s1, it)
             if items is None:
                 if isinstance(it, DictIter):
@@ -407,6 +411,28 @@ class StmtMixin:
                         else:
                             yield s3, o
         yield from go(st, 0)
+
+    def unroll_live(self, s, st, ref, k):
+        items = st.obj(ref).items
+        if k >= len(items):
+            if s.orelse:
+                yield from self.ex(s.orelse, st)
+            else:
+                yield st, FALL
+            return
+        if k > 4096:
+            raise Unsupported("for loop over a list that keeps growing")
+        for s2, r in self.assign(st, s.target, items[k]):
+            if isinstance(r, RaiseV):
+                yield s2, ("raise", r.exc)
+                continue
+            for s3, o in self.ex(s.body, s2):
+                if o[0] in ("fall", "continue"):
+                    yield from self.unroll_live(s, s3, ref, k + 1)
+                elif o[0] == "break":
+                    yield s3, FALL
+                else:
+                    yield s3, o
 
     def unroll(self, s, st, items, k):
         if k == len(items):
